@@ -1,5 +1,5 @@
-\* all processes, 2 clients x 2 rounds; exploration is cut behind the recorded root-cause states (known findings); 4,314,774 distinct states (about 4 minutes with 16 otherwise idle cores; not part of the registered tiers, which use the 2x1-two-ticks and 3x1 variants)
-\* (checks/C24.py generates the configurations it runs from the same templates; measured sizes in DESIGN.md 5/C24 and evidence/C24.json)
+\* all processes, 2 clients x 2 rounds; exploration is cut behind the recorded root-cause states (known findings); ~4.3 million distinct states, several minutes; the registered tiers use the 2x1-two-ticks and 3x1 variants
+\* (checks/C24.py generates the configurations it runs from the same templates; measured sizes are in evidence/C24.json)
 SPECIFICATION Spec
 CONSTANTS
   Clients = {"c1","c2"}
@@ -13,6 +13,6 @@ CONSTANTS
   FactoryFails = FALSE
   PutNil = FALSE
   Timeouts = FALSE
-INVARIANTS TypeOK NoOverAllocation OneHolder PutNeverFails NoOtherPanic QuiescentAccounting CountersAgree SlotsConserved
+INVARIANTS TypeOK NoOverAllocation OneHolder PutNeverFails NoOtherPanic QuiescentAccounting CountersAgree SlotsConserved RepairHolds
 CONSTRAINT NoRootCause
 CHECK_DEADLOCK TRUE
